@@ -419,7 +419,10 @@ func convTypeToTarget(source interface{}, target reflect.Type) (interface{}, err
 	default:
 		if source != nil {
 			rv := reflect.ValueOf(source)
-			if rv.IsValid() && rv.CanConvert(target) {
+			// (not for a Go integer headed for a string: that conversion is "the character with
+			// this code", which turned []int{65, 66} into ["A", "B"] for a []string parameter)
+			intToString := target.Kind() == reflect.String && rv.IsValid() && rv.Kind() >= reflect.Int && rv.Kind() <= reflect.Uintptr
+			if rv.IsValid() && rv.CanConvert(target) && !intToString {
 				return rv.Convert(target).Interface(), nil
 			}
 		}
